@@ -252,7 +252,14 @@ class ClauseToRule(_tf.TelTransformer):
         nxt = lambda l, r: ctx.add_formula(stp(r, abs(l), False))
         rhs = head_formula_to_body_formula(x.rhs, ctx.add_formula)
         frm = neg(nxt(x.lhs, rhs))
-        self.__body.append(frm.translate(ctx, step))
+        lit = frm.translate(ctx, step)
+        if lit > 0:
+            # the negation of a negated formula is represented by the positive literal of its
+            # argument; it has to stay a negative dependency (not not) in the rule body
+            aux = ctx.backend.add_atom()
+            ctx.backend.add_rule([aux], [-lit])
+            lit = -aux
+        self.__body.append(lit)
 
 def translate_clause(clause, ctx, step, body_literal):
     head = []
